@@ -841,3 +841,39 @@ pub fn forge_openings(v: &VerifierData, p: &ProofData, pis: &[Fe], ver: Version,
     q.comms[W_Z_COMM] = G1Affine::from(-(tt * ch.u));
     Some(q)
 }
+
+
+/// A non-zero point of E(F_p) in the cofactor torsion (order dividing h, outside
+/// G1): [r]P for the first curve point P with a small x-coordinate that is not in the
+/// prime-order subgroup. Adding it to one commitment and subtracting it from another
+/// gives two byte strings that are each outside G1 while their sum is inside.
+pub fn cofactor_torsion_point() -> Option<G1Projective> {
+    use crate::fe::U320;
+    for x in 1u64..400 {
+        for sign in [0u8, 0x20] {
+            let mut b = [0u8; 48];
+            b[40..48].copy_from_slice(&x.to_be_bytes());
+            b[0] |= 0x80 | sign;
+            let p = G1Affine::from_compressed_unchecked(&b);
+            if !bool::from(p.is_some()) {
+                continue;
+            }
+            let p = p.unwrap();
+            if !bool::from(p.is_on_curve()) || bool::from(p.is_torsion_free()) {
+                continue;
+            }
+            let r = U320::modulus();
+            let mut acc = G1Projective::identity();
+            for i in (0..255).rev() {
+                acc = acc.double();
+                if r.bit(i) == 1 {
+                    acc = acc + G1Projective::from(p);
+                }
+            }
+            if !bool::from(acc.is_identity()) {
+                return Some(acc);
+            }
+        }
+    }
+    None
+}
